@@ -42,8 +42,7 @@ def _req(ctx, st):
     from pyvc.core import PairForall
     return [st.m >= st.nper, st.m == st.nper * st.nrec, st.N == st.NL(st.m - 1) + 1,
             Forall(lambda t: Implies(in_range(t, st.m), And(in_range(st.NL(t), st.N), st.D(st.NL(t)) == 10, Implies(t + 1 < st.m, st.NL(t) < st.NL(t + 1)))),
-                   triggers=[st.NL], name="new_lines: increasing positions of newline bytes"),
-            PairForall(st.NL, lambda a, b: Implies(And(in_range(a, st.m), in_range(b, st.m), a < b), st.NL(a) < st.NL(b)), name="L4 strictly increasing")]
+                   triggers=[st.NL], name="new_lines: increasing positions of newline bytes")]
 
 
 def rec_start(st, q):
